@@ -13,8 +13,11 @@ from twisted.logger._flatten import extractField
 from twisted.logger._flatten import flatFormat, flattenEvent
 from twisted.logger._format import formatWithCall
 from twisted.logger._json import eventAsJSON, eventFromJSON
+from twisted.python.failure import Failure
+from constantly import NamedConstant, Names
 
-HEADLINE = ("TwistedProps.C56.flat_equals_original_partial / json_equals_original_partial / spec_dropped_counterexample / "
+HEADLINE = ("TwistedProps.C56.flat_equals_original_partial / json_equals_original_partial / "
+            "any_history_equals_original_partial (flattenEvent_idem) / spec_dropped_counterexample / "
             "hooks_flat_and_json_equal_original_partial (re-entrant values: flatteners_are_private)")
 RULE = ("events = value trees (str incl. quotes/backslash/non-ASCII, int, bool, None, lists, str-keyed dicts, objects with "
         "fixed str/repr texts, attributes and pure callables) + format strings built from the grammar: literals with "
@@ -26,8 +29,15 @@ RULE = ("events = value trees (str incl. quotes/backslash/non-ASCII, int, bool, 
         "eventAsJSON, extractField, Logger.emit into a jsonFileLogObserver; hooks nested in inner events up to 3 deep; "
         "oracle-only variant: a hook that keeps and flattens ONE inner event) — placed as fields, attributes or call "
         "results, followed by fields that repeat earlier (field, conversion) pairs or share names with the inner "
-        "events; distinct = (mode, lookup kinds used, conversions, spec?, repeated?, hook action kinds / shared keys?, "
-        "outcome classes of original/flat/json)")
+        "events; EVERY event is observed over six histories (flatten; flatten twice; flatten twice then JSON; JSON; "
+        "JSON then JSON again; JSON then flatten — all model-compared); a sixth of the cases (mode exotic, oracle-only) "
+        "carry legal-but-unusual values and keys: tuples, frozensets, str/int subclasses with their own __str__/__repr__, "
+        "nan/inf, bytes, NamedConstants of LogLevel and of another container, Failures (.value, .getErrorMessage()), "
+        "Logger objects, dicts with int/tuple/bytes/None/constant keys (mixed with str keys, index lookups into int "
+        "keys), the same inside lists/dicts/attributes/call results, non-str keys on the event itself, the log_* keys "
+        "Logger.emit adds (and fields naming them), attribute names PotentialCallWrapper itself has; "
+        "distinct = (mode, lookup kinds used, conversions, spec?, repeated?, hook action kinds / shared keys?, unusual "
+        "kinds / extra keys / std keys, outcome classes of original/flat/json, histories disagreeing?)")
 ASSUMES = [
     "log_format is a str (flattenEvent raises TypeError on bytes formats: string.Formatter.parse(bytes))",
     "the event is not already flattened by someone else and format fields do not name log_flattened",
@@ -35,8 +45,13 @@ ASSUMES = [
     "__dict__, …): the model's getattr goes straight to the wrapped value (such names are exercised oracle-only)",
     "values: format(v, '') == str(v) (true of str/int/bool/None/list/dict and every object without its own "
     "__format__); an object whose __format__('') differs from its str() is exercised oracle-only",
-    "dict keys inside values are str; bytes and float values are exercised ORACLE-ONLY (no Lean counterpart; added "
-    "after seeded change C56-1 was missed); no Failure/LogLevel values",
+    "in MODEL-COMPARED cases dict keys inside values are str and values are str/int/bool/None/list/dict/object; "
+    "bytes, float (incl. nan/inf), tuple, frozenset, str/int subclasses, NamedConstant/LogLevel, Failure, Logger "
+    "values, dicts and events with non-str keys and the Logger.emit log_* keys are exercised ORACLE-ONLY (no Lean "
+    "counterpart; added after seeded change C56-1 and the white-box mutation audit harness/mutants/C56)",
+    "not generated (eventAsJSON/eventFromJSON raise on the unchanged code, reported as observations, not findings): "
+    "self-referential containers (json.dumps: circular reference) and dict values that carry a '__class_uuid__' key "
+    "(objectLoadHook treats them as serialized LogLevel/Failure)",
     "re-entrant values (hooks) are deterministic by construction: every action works on a fresh copy of its inner event "
     "or on a read-only prepared one, and reports exceptions as text; the reserved attribute names \\x01S/\\x01R/\\x01L that "
     "carry a hook's scripts to the model are not named by format fields; lists/dicts do not contain hooks; in the model "
@@ -60,7 +75,14 @@ MANIFEST = {
             "(flattenEvent/formatEvent/eventAsJSON round trip/extractField return what the pure functions return in every "
             "heap and leave all earlier flatteners untouched), nextOps_good (objects whose str/repr/call/getattr run the "
             "machinery again are such effects, at any nesting depth), hence the property for events with such values "
-            "(reentrant_*_partial, hooks_flat_and_json_equal_original_partial). Model tied to the real code on every run.",
+            "(reentrant_*_partial, hooks_flat_and_json_equal_original_partial). Histories (after the mutation audit): "
+            "flattenEvent_idem (an event whose log_flattened already formats is left exactly as it is — no field is "
+            "looked up again, whatever JSON made of the values) and any_history_equals_original_partial: after ANY "
+            "sequence of flattenEvent and eventAsJSON/eventFromJSON steps every step succeeds and the event formats to "
+            "the original text (observed_histories_equal_original_partial: the four extra histories the tie observes). "
+            "The known-finding exemptions of the oracle are exact: format-spec-dropped / custom-format-ignored only "
+            "when every text after flattening/JSON equals the text of the same event without specs / without "
+            "__format__. Model tied to the real code on every run.",
     "note": "partial: fields with a non-empty format spec are excluded (the code drops them — finding format-spec-dropped); "
             "trusts Lean kernel, the hand-written model (differentially tied), CPython str.format internals as transcribed",
     "technique": "Lean 4 proof (loop invariant + key-shape lemmas) + differential tie + independent oracle",
@@ -170,6 +192,40 @@ class FObj(Obj):
 
     def __format__(self, spec):
         return "<fmt:" + spec + ">"
+
+
+class StrSub(str):
+    """a text subclass with its own __str__ / __repr__ (oracle-only)"""
+
+    def __new__(cls, raw, s, r):
+        o = str.__new__(cls, raw)
+        o._c56 = (s, r)
+        return o
+
+    def __str__(self):
+        return self._c56[0]
+
+    def __repr__(self):
+        return str.__repr__(self) if self._c56[1] is None else self._c56[1]
+
+
+class IntSub(int):
+    """an int subclass with its own __str__ (oracle-only)"""
+
+    def __new__(cls, n, s):
+        o = int.__new__(cls, n)
+        o._c56 = s
+        return o
+
+    def __str__(self):
+        return self._c56
+
+
+class Colour(Names):
+    """NamedConstants that are NOT LogLevel members: `info` shares its name with one, `red` does not"""
+    red = NamedConstant()
+    info = NamedConstant()
+    x_y = NamedConstant()
 
 
 class _Raised:
@@ -303,15 +359,42 @@ def build(v):
         return FObj(x[0], x[1], [])
     if k == "y":                      # bytes value (oracle-only: no Lean counterpart)
         return bytes.fromhex(x)
-    if k == "f":                      # float value (oracle-only)
+    if k == "f":                      # float value (oracle-only); "nan" / "inf" / "-inf" included
         return float(x)
+    # --- legal-but-unusual values (all oracle-only; added after the white-box mutation audit)
+    if k == "tu":
+        return tuple(build(e) for e in x)
+    if k == "se":
+        return frozenset(build(e) for e in x)
+    if k == "ss":
+        return StrSub(x[0], x[1], x[2])
+    if k == "is":
+        return IntSub(x[0], x[1])
+    if k == "nc":                     # a NamedConstant of a container other than LogLevel
+        return getattr(Colour, x)
+    if k == "lv":
+        return LogLevel.lookupByName(x)
+    if k == "fl":                     # a Failure without frames: deterministic str / repr
+        return Failure(RuntimeError(x))
+    if k == "lg":
+        return Logger(namespace=x)
+    if k == "dk":                     # a dict whose keys are not all str
+        return {build(kk): build(vv) for kk, vv in x}
     raise ValueError(k)
+
+
+STD_NS = "c56.ns"
 
 
 def event_of(c):
     ev = {"log_format": c["fmt"]}
+    if c.get("std"):                  # the keys Logger.emit adds to every event
+        ev.update(log_logger=Logger(namespace=STD_NS), log_level=LogLevel.lookupByName(c["std"]), log_namespace=STD_NS,
+                  log_source=None, log_time=1234.5)
     for k, v in c["fields"]:
         ev[k] = build(v)
+    for k, v in c.get("xkeys", ()):   # keys that are not str (never named by the format)
+        ev[build(k)] = build(v)
     return ev
 
 
@@ -366,15 +449,31 @@ def run_impl(c):
             flat2 = _fmt_text(ev2)
         except Exception as e:
             flat2 = "!" + type(e).__name__
+        try:                          # history: an event flattened earlier is serialized later
+            fj = _fmt_text(eventFromJSON(eventAsJSON(ev2)))
+        except Exception as e:
+            fj = "!" + type(e).__name__
     except Exception as e:
-        flat = flat2 = "!" + type(e).__name__
+        flat = flat2 = fj = "!" + type(e).__name__
     try:
-        ev4 = eventFromJSON(eventAsJSON(event_of(c)))
+        text = eventAsJSON(event_of(c))
+        ev4 = eventFromJSON(text)
         json_ = _fmt_text(ev4)
         jev = enc_py(ev4)
+        try:                          # history: the loaded event is serialized and loaded once more (log forwarding)
+            json2 = _fmt_text(eventFromJSON(eventAsJSON(eventFromJSON(text))))
+        except Exception as e:
+            json2 = "!" + type(e).__name__
+        try:                          # history: the loaded event is flattened again
+            ev6 = eventFromJSON(text)
+            flattenEvent(ev6)
+            jflat = _fmt_text(ev6)
+        except Exception as e:
+            jflat = "!" + type(e).__name__
     except Exception as e:
-        json_ = jev = "!" + type(e).__name__
-    return f"orig={orig}|flat={flat}|flat2={flat2}|json={json_}|keys={keys}|jev={jev}"
+        json_ = jev = json2 = jflat = "!" + type(e).__name__
+    return (f"orig={orig}|flat={flat}|flat2={flat2}|json={json_}|keys={keys}|jev={jev}"
+            f"|json2={json2}|jflat={jflat}|fj={fj}")
 
 
 def model_line(c):
@@ -408,9 +507,23 @@ def _features(c):
             feats.add("midcall")
         if any(seg.startswith("_") for seg in n.replace("[", ".").split(".")[1:]):
             feats.add("wrapattr")
-    if any("fo" in v for _, v in c["fields"]):
+    if '"fo"' in json.dumps(c["fields"]):
         feats.add("customfmt")
     return feats
+
+
+AFTER = ("flat", "flat2", "json", "json2", "jflat", "fj")
+
+
+def _plain_objects(x):
+    """the same value tree with every __format__-carrying object replaced by a plain one (same str/repr)"""
+    if isinstance(x, dict):
+        if "fo" in x and len(x) == 1:
+            return {"o": [x["fo"][0], x["fo"][1], [], None]}
+        return {k: _plain_objects(v) for k, v in x.items()}
+    if isinstance(x, list):
+        return [_plain_objects(v) for v in x]
+    return x
 
 
 def _parts(out):
@@ -436,17 +549,25 @@ def oracle(c, out):
     if out.startswith("!"):
         return {"key": "harness-raised", "detail": out}
     p = _parts(out)
-    for k in ("orig", "flat", "flat2", "json"):
+    for k in ("orig",) + AFTER:
         if p[k].startswith("?"):
             return {"key": "unformattable-text", "detail": f"{k}: {p[k]}"}
     if not p["orig"].startswith("ok:"):
         return None            # the original does not format: outside the property's domain
-    bad = [k for k in ("flat", "flat2", "json") if p[k] != p["orig"]]
+    bad = [k for k in AFTER if p[k] != p["orig"]]
     if not bad:
         return None
     feats = _features(c)
+
+    def explained_by(c2):
+        """a known finding explains the difference only if every text after flattening / JSON is exactly what the
+        event formats to once the finding's cause (format specs / the __format__ method) is taken away"""
+        p2 = _parts(run_impl(c2))
+        return p2.get("orig", "").startswith("ok:") and all(p[k] == p2["orig"] for k in AFTER)
     if "customfmt" in feats:
         key = "custom-format-ignored"
+        if not explained_by(dict(c, fields=_plain_objects(c["fields"]))):
+            key = "flat-or-json-differs"
     elif "wrapattr" in feats:
         key = "wrapper-attribute-leak"
     elif "midcall" in feats:
@@ -455,10 +576,10 @@ def oracle(c, out):
         key = "ascii-conversion-lost"
     elif "spec" in feats:
         key = "format-spec-dropped"
-        # the known finding explains the difference only if it disappears once the specs are removed
+        # the known finding explains the difference only if every flattened / JSON text is the text WITHOUT the specs
+        # (tightened after mutant m11: a flattened event that no longer formats at all is not "the spec was dropped")
         c2 = dict(c, fmt=_rebuild([(lit, n, "", cv) for lit, n, _, cv in string.Formatter().parse(c["fmt"])]))
-        p2 = _parts(run_impl(c2))
-        if p2.get("orig", "").startswith("ok:") and any(p2[k] != p2["orig"] for k in ("flat", "flat2", "json")):
+        if not explained_by(c2):
             key = "flat-or-json-differs"
     else:
         key = "flat-or-json-differs"
@@ -520,6 +641,28 @@ def _reent_corpus():
     return out
 
 
+def _audit_corpus():
+    """witnesses of the blind spots the white-box mutation audit found (harness/mutants/C56): histories (an event that
+    went through JSON is flattened / serialized again), values and keys outside str/int/list/dict, and format specs
+    that change nothing (the known finding must not hide a flattened event that no longer formats)"""
+    P = {"o": ["O-str", "O-repr", [["a", I(5)]], None]}
+    X = {"oracle_only": True}
+    return [
+        {"op": "all", "fmt": "{o} {o.a} {o!r} {o}", "fields": [["o", P]]},                            # m02 (second hop)
+        {"op": "all", "fmt": "{t} {t!r} {u} {e}", "fields": [["t", {"tu": [I(1), I(2)]}], ["u", {"tu": [T("one")]}], ["e", {"tu": []}]], **X},   # m04
+        {"op": "all", "fmt": "{s} {s!r} {s!s}", "fields": [["s", {"ss": ["secret", "***", None]}]], **X},  # m05
+        {"op": "all", "fmt": "{n} {n!r}", "fields": [["n", {"is": [5, "five"]}]], **X},
+        {"op": "all", "fmt": "{a}", "fields": [["a", I(1)]], "xkeys": [[{"tu": [I(1), I(2)]}, T("x")]], **X},   # m06
+        {"op": "all", "fmt": "{a} {a[1]}", "fields": [["a", {"dk": [[I(1), T("x")], [T("k"), T("y")], [{"tu": []}, I(0)]]}]], **X},  # m06/m07
+        {"op": "all", "fmt": "{a} {b!r} {c}", "fields": [["a", {"f": "nan"}], ["b", {"f": "inf"}], ["c", {"l": [{"f": "-inf"}]}]], **X},  # m08
+        {"op": "all", "fmt": "{a} {a.name} {b} {l.name}", "fields": [["a", {"nc": "red"}], ["b", {"nc": "info"}], ["l", {"lv": "warn"}]], **X},  # m10
+        {"op": "all", "fmt": "{log_failure.value} {log_failure.getErrorMessage()} {log_level.name} {log_logger} in {log_namespace}",
+         "fields": [["log_failure", {"fl": "boom"}]], "std": "error", **X},
+        {"op": "all", "fmt": "{a} {x:{w}}", "fields": [["a", I(1)], ["x", T("ab")], ["w", I(0)]]},      # m11: a spec that changes nothing
+        {"op": "all", "fmt": "{a} {n:d} {a!r:s}", "fields": [["a", T("v")], ["n", I(42)]]},
+    ]
+
+
 def corpus():
     o = {"o": ["O-str", "O-repr", [["a", I(5)], ["f", {"o": ["f-s", "f-r", [], {"o": ["r-s", "r-r", [["y", I(5)]], None]}]}]], None]}
     fn = {"o": ["fn-s", "<fn>", [], {"o": ["r-s", "r-r", [["y", T("why")]], None]}]}
@@ -545,7 +688,7 @@ def corpus():
         {"op": "all", "fmt": "{x:{w:{v}}}", "fields": [["x", I(1)], ["w", I(2)], ["v", I(3)]]},
         {"op": "all", "fmt": "{x", "fields": [["x", I(1)]]},
         {"op": "all", "fmt": "{x} }", "fields": [["x", I(1)]]},
-    ] + _reent_corpus() + [
+    ] + _reent_corpus() + _audit_corpus() + [
         {"op": "parse", "s": "a{{b}}{x[a:b!r]!r:>{w}}{y!s}}}{"},
         {"op": "parse", "s": "{x[}"},
         {"op": "parse", "s": "{a!r"},
@@ -571,7 +714,7 @@ def _val(rng, depth, allow_call=True):
         if k < 0.93:                  # bytes with deterministic str/repr: valid UTF-8, invalid UTF-8, empty
             return {"y": rng.choice(["", "474554202f20485454502f312e31", "c3a9", "ff00fe", "61", "0a27"])}
         if k < 0.96:
-            return {"f": rng.choice(["0.5", "-1.25", "1e+300", "3.0", "0.1"])}
+            return {"f": rng.choice(["0.5", "-1.25", "1e+300", "3.0", "0.1", "nan", "inf", "-inf"])}
         return {"n": None}
     if r < 0.6:
         return {"l": [_val(rng, depth - 1) for _ in range(rng.randint(0, 3))]}
@@ -587,6 +730,76 @@ def _kind(v):
     return next(iter(v))
 
 
+# legal-but-unusual values and keys (white-box mutation audit): containers other than list/dict, subclasses of the
+# basic types with their own __str__, non-finite floats, constants, Failures, dicts whose keys are not all str
+EXOTIC = ("tu", "se", "ss", "is", "nc", "lv", "fl", "lg", "dk")
+XPATHS = {"fl": ["", ".value", ".getErrorMessage()", ".type", ".value.args[0]"], "nc": ["", ".name"], "lv": ["", ".name"],
+          "lg": ["", ".namespace"], "ss": ["", "", "[0]"], "se": [""], "is": ["", ".real"]}
+
+
+WRAPPER_ATTRS = ["._wrapped", ".__class__.__name__", ".__class__", ".__dict__", ".__module__", ".__doc__"]
+
+
+def _xkey(rng):
+    """a dict key that is not a str"""
+    r = rng.random()
+    if r < 0.3:
+        return {"tu": [I(rng.choice([0, 1, 2])) for _ in range(rng.choice([0, 1, 2]))]}
+    if r < 0.5:
+        return I(rng.choice([0, 1, 2, 7, -1]))
+    if r < 0.65:
+        return {"y": rng.choice(["", "6b", "ff"])}
+    if r < 0.75:
+        return {"nc": rng.choice(["red", "info"])}
+    if r < 0.85:
+        return {"se": [I(1)][:rng.choice([0, 1])]}
+    return rng.choice([{"n": None}, {"b": True}, {"f": "0.5"}, {"f": "nan"}])
+
+
+def _xval(rng, depth):
+    k = rng.choice(["tu", "tu", "se", "ss", "ss", "is", "nc", "nc", "lv", "fl", "lg", "dk", "dk", "f", "y", "wrap", "wrap"])
+    if k == "tu":
+        return {"tu": [_val(rng, depth - 1) for _ in range(rng.choice([0, 1, 1, 2, 3]))]}
+    if k == "se":
+        return {"se": [rng.choice([I(7), T("a"), {"tu": []}])][:rng.choice([0, 1, 1])]}
+    if k == "ss":
+        raw = _text(rng)
+        return {"ss": [raw, rng.choice([raw, "***", _text(rng)]), rng.choice([None, None, "<ss>"])]}
+    if k == "is":
+        n = rng.choice([0, 1, 5, -3, 2**70])
+        return {"is": [n, rng.choice([str(n), "five", ""])]}
+    if k == "nc":
+        return {"nc": rng.choice(["red", "info", "x_y"])}
+    if k == "lv":
+        return {"lv": rng.choice(["debug", "info", "warn", "error", "critical"])}
+    if k == "fl":
+        return {"fl": _text(rng, alpha=TEXT_ALPHA[:14])}
+    if k == "lg":
+        return {"lg": rng.choice(["", "a.b", "é"])}
+    if k == "dk":
+        n = rng.choice([1, 2, 2, 3])
+        kvs = []
+        for _ in range(n):
+            key = _xkey(rng) if rng.random() < 0.7 else T(rng.choice(NAMES + ["k", "1"]))
+            if json.dumps(key) not in [json.dumps(q) for q, _ in kvs]:
+                kvs.append([key, _val(rng, depth - 1)])
+        return {"dk": kvs}
+    if k == "f":
+        return {"f": rng.choice(["nan", "inf", "-inf"])}
+    if k == "y":
+        return {"y": rng.choice(["", "ff00fe", "c3a9", "80"])}
+    # an ordinary container / object holding an unusual value
+    inner = _xval(rng, depth - 1) if depth > 0 else {"tu": []}
+    r = rng.random()
+    if r < 0.35:
+        return {"l": [inner] + [_val(rng, 0) for _ in range(rng.choice([0, 1]))]}
+    if r < 0.6:
+        return {"d": [[rng.choice(NAMES), inner]]}
+    if r < 0.8:
+        return {"o": [_text(rng, alpha=TEXT_ALPHA[:14]), _text(rng, alpha=TEXT_ALPHA[:14]), [[rng.choice(NAMES), inner]], None]}
+    return {"o": [_text(rng, alpha=TEXT_ALPHA[:14]), _text(rng, alpha=TEXT_ALPHA[:14]), [], inner]}
+
+
 def _path(rng, name, v, midcall, broken):
     """a field name walking value v from event key `name`; returns (fieldName, final value spec or None)"""
     out = name
@@ -597,6 +810,8 @@ def _path(rng, name, v, midcall, broken):
             out += rng.choice([".nope", "[99]", "[zz]", "()", ".", "[", "[]", "]x", ".a.", "..a"])
             return out, None
         stop = rng.random() < 0.3
+        if k in XPATHS:
+            return out + ("" if after_bracket and k == "fl" else rng.choice(XPATHS[k])), None
         if k in ("o", "h"):
             s, r, attrs, ret = v[k][:4]
             if ret is not None and not after_bracket and rng.random() < 0.6:
@@ -619,10 +834,21 @@ def _path(rng, name, v, midcall, broken):
             return out, v
         if stop:
             return out, v
-        if k == "l" and v["l"]:
-            i = rng.randrange(len(v["l"]))
+        if k in ("l", "tu") and v[k]:
+            i = rng.randrange(len(v[k]))
             out += f"[{i}]"
-            v = v["l"][i]
+            v = v[k][i]
+            after_bracket = True
+            continue
+        if k == "dk" and v["dk"]:
+            kk, vv = rng.choice(v["dk"])
+            if _kind(kk) == "i" and kk["i"] >= 0:
+                out += f"[{kk['i']}]"           # an index lookup that finds an int key
+            elif _kind(kk) == "t" and not kk["t"].isdigit():
+                out += f"[{kk['t']}]"
+            else:
+                return out, v
+            v = vv
             after_bracket = True
             continue
         if k == "d" and v["d"]:
@@ -661,6 +887,15 @@ def _gen_all(rng, mode):
     used = rng.sample(NAMES + ["o", "fn", "lst"], nfields)
     for k in used:
         fields.append([k, _val(rng, 3)])
+    xkeys, std = [], None
+    if mode == "exotic":
+        for i in rng.sample(range(nfields), min(nfields, rng.choice([1, 1, 2]))):
+            fields[i][1] = _xval(rng, 2)
+        if rng.random() < 0.35:
+            xkeys = [[_xkey(rng), _val(rng, 1)] for _ in range(rng.choice([1, 1, 2]))]
+            xkeys = [kv for i, kv in enumerate(xkeys) if json.dumps(kv[0]) not in [json.dumps(q[0]) for q in xkeys[:i]]]
+        if rng.random() < 0.3:
+            std = rng.choice(["debug", "info", "warn", "error", "critical"])
     if mode == "spec":
         fields.append(["w", I(rng.choice([0, 1, 5, 9]))])
         fields.append(["n", I(rng.choice([42, -42, 0, 255, 10**9]))])
@@ -669,6 +904,12 @@ def _gen_all(rng, mode):
     for _ in range(rng.randint(1, 4)):
         k, v = rng.choice(fields)
         name, fin = _path(rng, k, v, mode == "midcall", broken)
+        if std and rng.random() < 0.4:
+            name, fin = rng.choice(["log_level", "log_level.name", "log_namespace", "log_logger", "log_source", "log_time",
+                                    "log_logger.namespace"]), None
+        elif mode == "exotic" and rng.random() < 0.12:
+            # attribute names that PotentialCallWrapper itself has: both paths must resolve them the same way
+            name, fin = k + rng.choice(WRAPPER_ATTRS), None
         r = rng.random()
         conv = None
         if r < 0.2:
@@ -698,8 +939,12 @@ def _gen_all(rng, mode):
     if broken and rng.random() < 0.3:
         fmt += rng.choice(["{", "}", "{x", "{a!}", "{a!r", "{a!rs}", "{a:{", "{a[}", "{{}", "{a{b}}"])
     c = {"op": "all", "fmt": fmt, "fields": fields, "mode": mode}
-    if '"y"' in json.dumps(fields) or '"f"' in json.dumps(fields):
-        c["oracle_only"] = True       # bytes / float values have no Lean model: judged by the oracle on the real code only
+    if xkeys:
+        c["xkeys"] = xkeys
+    if std:
+        c["std"] = std
+    if mode == "exotic" or '"y"' in json.dumps(fields) or '"f"' in json.dumps(fields):
+        c["oracle_only"] = True       # bytes / float / unusual values have no Lean model: judged by the oracle on the real code only
     return c
 
 
@@ -832,7 +1077,7 @@ MALFORMED_ALPHA = ["{", "}", "{", "}", "[", "]", "!", ":", ".", "(", ")", "a", "
 
 def generate(rng, tier):
     n = 2500 if tier == "quick" else 60000
-    modes = ["plain"] * 8 + ["spec"] * 3 + ["ascii", "midcall", "broken", "broken"]
+    modes = ["plain"] * 8 + ["spec"] * 3 + ["ascii", "midcall", "broken", "broken"] + ["exotic"] * 5
     for i in range(n):
         r = rng.random()
         if r < (0.25 if tier == "quick" else 0.15):
@@ -870,11 +1115,18 @@ def shrink(c):
             yield dict(base, fmt=rebuild(items[:i] + [("", n, s, cv)] + items[i + 1:]), fields=fields)
     for i in range(len(fields)):
         yield dict(base, fmt=fmt, fields=fields[:i] + fields[i + 1:])
+    for drop in ("xkeys", "std"):
+        if drop in base:
+            yield dict({k: v for k, v in base.items() if k != drop}, fmt=fmt, fields=fields)
+    xk = base.get("xkeys", [])
+    for i in range(len(xk)):
+        if len(xk) > 1:
+            yield dict(base, fmt=fmt, fields=fields, xkeys=xk[:i] + xk[i + 1:])
     for i, (k, v) in enumerate(fields):
         kind = _kind(v)
         if kind == "t" and v["t"]:
             yield dict(base, fmt=fmt, fields=fields[:i] + [[k, T(v["t"][1:])]] + fields[i + 1:])
-        if kind in ("l", "d") and v[kind]:
+        if kind in ("l", "d", "tu", "dk", "se") and v[kind]:
             yield dict(base, fmt=fmt, fields=fields[:i] + [[k, {kind: v[kind][1:]}]] + fields[i + 1:])
         if kind == "h":
             h = v["h"]
@@ -908,7 +1160,11 @@ def tag(c, out):
     code = {"fmt:flat": "F", "fmt:json": "J", "fmt:raw": "W", "json": "j", "flatfmt": "t", "extract:raw": "x",
             "extract:flat": "X", "extract:json": "Y", "log": "l", "mutfmt": "m"}
     hooks = ("H" + "".join(sorted(code.get(a, "?") for a in hk)) + ("K" if _shares_keys(c) else "")) if hk else ""
-    return f"{c.get('mode', 'corpus')}:{look}:{convs}:{spec}{rep}{hooks}:{min(len(fs), 4)}:{oc}"
+    dumped = json.dumps([c["fields"], c.get("xkeys", [])])
+    exo = "".join(sorted(k[0] + k[-1] for k in EXOTIC if ('{"%s":' % k) in dumped))
+    exo = ("X" + exo + ("k" if c.get("xkeys") else "") + ("s" if c.get("std") else "")) if (exo or c.get("xkeys") or c.get("std")) else ""
+    hist = "" if len({cls(p.get(k, "?")) for k in AFTER}) <= 1 else "h"
+    return f"{c.get('mode', 'corpus')}:{look}:{convs}:{spec}{rep}{hooks}{exo}:{min(len(fs), 4)}:{oc}{hist}"
 
 
 def _hook_info(x, acc=None):
